@@ -223,6 +223,12 @@ func (r *transport) handleUnrecognizedMethod(
 	req *http.Request,
 	urlKey string,
 ) (*http.Response, error) {
+	if internal.ParseCCRequestDirectives(req.Header).OnlyIfCached() {
+		// RFC 9111 §5.2.1.7: the client does not want the network to be used.
+		// Nothing is stored that could answer a request the cache does not
+		// handle itself (other methods, Range), so the answer is 504.
+		return make504Response(req)
+	}
 	if !internal.IsUnsafeMethod(req.Method) {
 		resp, err := r.upstream.RoundTrip(req)
 		if err != nil {
